@@ -40,6 +40,26 @@ Definition is_wordc (c : ascii) : bool := is_alpha c || is_digit c || Ascii.eqb 
 Definition is_quote (c : ascii) : bool := Ascii.eqb c "'"%char || Ascii.eqb c """"%char.
 Definition is_backslash (c : ascii) : bool := Nat.eqb (code c) 92.
 
+(* Python's string-literal escapes, as far as modelled: a backslash before a character that is no escape of the
+   string syntax (the regex classes and punctuation) stays, a doubled backslash is one backslash; any other escape,
+   and a backslash at the very end (it would escape the closing quote), is outside the model *)
+Definition keeps_backslash (d : ascii) : bool :=
+  existsb (Ascii.eqb d) (list_ascii_of_string "dDwWsS.*+?()[]|^${}-").
+Fixpoint unescape (cs : list ascii) : option (list ascii) :=
+  match cs with
+  | [] => Some []
+  | c :: r =>
+      if is_backslash c then
+        match r with
+        | [] => None
+        | d :: r' =>
+            if is_backslash d then match unescape r' with Some l => Some (d :: l) | None => None end
+            else if keeps_backslash d then match unescape r' with Some l => Some (c :: d :: l) | None => None end
+            else None
+        end
+      else match unescape r with Some l => Some (c :: l) | None => None end
+  end.
+
 Fixpoint span (p : ascii -> bool) (cs : list ascii) : list ascii * list ascii :=
   match cs with
   | [] => ([], [])
@@ -94,11 +114,15 @@ Fixpoint lex_go (cfg : config) (fuel : nat) (cs : list ascii) : option (list tok
         | [] => Some [TBad]                                   (* unterminated: nothing consumes the quote *)
         | q :: rest' =>
           if negb (Ascii.eqb q c) then None                   (* the other quote kind inside: outside the model *)
-          else if negb (forallb (fun x => printable x && negb (is_backslash x)) body) then None
-          else match rest' with
-               | q2 :: _ => if Ascii.eqb q2 c then None       (* 'a''b' is ONE quotedString for pyparsing *)
-                            else cons_t (TStr (string_of_list_ascii body)) rest'
-               | [] => cons_t (TStr (string_of_list_ascii body)) rest'
+          else match unescape body with
+               | None => None                                 (* an escape the model does not cover *)
+               | Some content =>
+                   if negb (forallb printable content) then None
+                   else match rest' with
+                        | q2 :: _ => if Ascii.eqb q2 c then None       (* 'a''b' is ONE quotedString for pyparsing *)
+                                     else cons_t (TStr (string_of_list_ascii content)) rest'
+                        | [] => cons_t (TStr (string_of_list_ascii content)) rest'
+                        end
                end
         end
       else if is_nums c then
